@@ -178,7 +178,7 @@ class Codec(Suite):
     name = "codec"
     go_cmd = "c31"
     coq_imports = "From GoGit Require Import Model.Eol."
-    quick_n = 700
+    quick_n = 500
     thorough_n = 12000
 
     def gen(self, rng, n, tier):
@@ -370,7 +370,7 @@ class Flow(Suite):
     name = "flow"
     go_cmd = "c31"
     coq_imports = "From GoGit Require Import Model.Eol Spec.GitConvert."
-    quick_n = 420
+    quick_n = 300
     thorough_n = 6000
     coq_chunk = 150
 
